@@ -40,7 +40,10 @@ type Case struct {
 	CarryCap    int      `json:"carry_cap"` // capacity of the buffer the carry-over is copied into
 	Limit       int      `json:"limit"`
 	TruncateAt  int      `json:"truncate_at"` // -1 = no truncation
+	TermErr     string   `json:"term_err"`    // terminal reader error: "" = io.EOF, "unexpected" = io.ErrUnexpectedEOF, "custom"
 }
+
+var errCustom = fmt.Errorf("injected reader failure")
 
 func codecOf(name string) larking.StreamCodec {
 	switch name {
@@ -107,6 +110,12 @@ func Check(c Case) ([]evid.Violation, info) {
 		data = full[:c.TruncateAt]
 	}
 	rd := &drive.ScriptReader{Data: data, Chunks: append([]int{}, c.Chunks...), EOFWithLast: c.EOFWithLast}
+	switch c.TermErr {
+	case "unexpected":
+		rd.Err = io.ErrUnexpectedEOF
+	case "custom":
+		rd.Err = errCustom
+	}
 	// does the script split inside a message / prefix?
 	off := 0
 	for _, ch := range c.Chunks {
@@ -186,6 +195,9 @@ func Check(c Case) ([]evid.Violation, info) {
 		buf = append(make([]byte, 0, cc), res.dst[res.n:]...)
 	}
 
+	if c.TermErr != "" && termErr == io.EOF {
+		return fail("reader-error", "reader-error-reported-as-eof", "the reader failed with %v but ReadNext reported io.EOF (%s)", rd.Err, brief(c))
+	}
 	// ---- sequence oracle ----
 	if c.Raw != nil {
 		// hand-made prefix: the declared size decides.
@@ -216,6 +228,13 @@ func Check(c Case) ([]evid.Violation, info) {
 				return fail("sequence", "empty-chunk", "empty chunk %d of %d for a %d-byte upload (limit %d)", i, len(got), len(data), limit)
 			}
 			cat = append(cat, g...)
+		}
+		if c.TermErr != "" {
+			// a failing reader: complete chunks so far, then the error
+			if !bytes.HasPrefix(data, cat) {
+				return fail("sequence", "bytes-differ", "chunks are not a prefix of the upload")
+			}
+			return vs, in
 		}
 		if !bytes.Equal(cat, data) {
 			return fail("sequence", "bytes-lost", "upload of %d bytes (limit %d, %s) read back as %d bytes in %d chunks; err=%v", len(data), limit, rd, len(cat), len(got), termErr)
@@ -277,7 +296,7 @@ func brief(c Case) string {
 	for _, m := range c.Msgs {
 		sizes = append(sizes, strconv.Itoa(len(m)))
 	}
-	return fmt.Sprintf("codec=%s sizes=[%s] chunks=%v eofWithLast=%v initCap=%d limit=%d truncateAt=%d", c.Codec, strings.Join(sizes, ","), c.Chunks, c.EOFWithLast, c.InitCap, c.Limit, c.TruncateAt)
+	return fmt.Sprintf("codec=%s sizes=[%s] chunks=%v eofWithLast=%v initCap=%d limit=%d truncateAt=%d termErr=%q", c.Codec, strings.Join(sizes, ","), c.Chunks, c.EOFWithLast, c.InitCap, c.Limit, c.TruncateAt, c.TermErr)
 }
 
 func trunc(b []byte) []byte {
@@ -469,6 +488,7 @@ func genCase(t *rapid.T) Case {
 	}
 	c.Chunks = genChunks(t, total)
 	c.EOFWithLast = rapid.Bool().Draw(t, "eofWithLast")
+	c.TermErr = rapid.SampledFrom([]string{"", "", "", "", "unexpected", "custom"}).Draw(t, "termErr")
 	return c
 }
 
@@ -491,6 +511,9 @@ func classify(c Case, in info) (string, []string) {
 	}
 	if c.EOFWithLast {
 		cl = append(cl, "eof-with-last")
+	}
+	if c.TermErr != "" {
+		cl = append(cl, "reader-fails")
 	}
 	key := ""
 	nontriv := c.Raw != nil || in.nearLimit || c.TruncateAt >= 0 || (len(c.Msgs) >= 2 && in.splitInside) || in.carry
